@@ -1,6 +1,7 @@
 package json
 
 import (
+	"github.com/go-json-experiment/json/internal/jsonflags"
 	"github.com/go-json-experiment/json/internal/zzverif/vrt"
 )
 
@@ -18,6 +19,10 @@ type zz14T struct {
 	A [2]int8         `json:"a"`
 	I any             `json:"i"`
 	N int8            `json:"n"`
+	// slice with interface elements and array with struct elements: elements are REPLACED
+	// (zeroed first), never merged with what the destination held at that index
+	LA []any        `json:"la"`
+	AS [2]zz14Inner `json:"as"`
 }
 
 // zzDigit returns a decimal digit byte and its numeric value: symbolic when sym, else def.
@@ -68,6 +73,10 @@ func VerifC14Merge(field, mode int) {
 	a2c, a2 := zzDigit(field == 4, "a2", '9')
 	n1c, n1 := zzDigit(field == 6, "n1", '2')
 	ik1 := zzKeyByte(field == 5, "ik1", 'b')
+	if field >= 7 {
+		zz14Elements(field, mode)
+		return
+	}
 	j1 := []byte(`{"s":{"x":` + string(x1c) + `,"y":"` + string(y1) + `"},"p":{"x":` + string(px1c) + `},"m":{"` + string(k1) + `":` + string(mv1c) +
 		`},"l":[` + string(l1c) + `,7],"a":[` + string(a1c) + `,` + string(a2c) + `],"i":{"` + string(ik1) + `":true},"n":` + string(n1c) + `}`)
 	var v zz14T
@@ -232,4 +241,66 @@ func zz14Equal(got, want *zz14T, wantI map[string]any, iNil, iSkip bool) bool {
 		}
 	}
 	return true
+}
+
+// zz14Elements: fields 7 (slice of interface elements) and 8 (array of structs, also under the
+// option that accepts arrays of any length): a second text replaces elements, it never merges
+// into the element that was at the same index.
+func zz14Elements(field, mode int) {
+	dc, d := zzDigit(true, "d", '0')
+	k1 := zzKeyByte(true, "k1", 'a')
+	k2 := zzKeyByte(true, "k2", 'b')
+	var v zz14T
+	if field == 7 {
+		j1 := []byte(`{"la":[{"` + string(k1) + `":1},"keep"]}`)
+		vrt.Assert("C14/j1-accepted", Unmarshal(j1, &v) == nil)
+		var j2 []byte
+		if mode == 0 {
+			j2 = []byte(`{"la":[{"` + string(k2) + `":` + string(dc) + `}]}`)
+		} else {
+			j2 = []byte(`{"la":[{"` + string(k2) + `":` + string(dc) + `},{"z":true}]}`)
+		}
+		err2 := Unmarshal(j2, &v)
+		vrt.Cover("second-unmarshal")
+		vrt.Assert("C14/j2-accepted", err2 == nil)
+		wantLen := 1
+		if mode != 0 {
+			wantLen = 2
+		}
+		vrt.Assert("C14/slice-holds-exactly-new-elements", len(v.LA) == wantLen)
+		if len(v.LA) == wantLen {
+			m0, ok := v.LA[0].(map[string]any)
+			// the new element replaces the old one: exactly one member, the new one
+			vrt.Assert("C14/interface-element-replaced-not-merged", ok && len(m0) == 1)
+			if ok && len(m0) == 1 {
+				f, isF := m0[string(k2)].(float64)
+				vrt.Assert("C14/interface-element-value", isF && f == float64(d))
+			}
+			if mode != 0 {
+				m1, ok1 := v.LA[1].(map[string]any)
+				vrt.Assert("C14/second-element-replaced", ok1 && len(m1) == 1 && m1["z"] == true)
+			}
+		}
+		return
+	}
+	j1 := []byte(`{"as":[{"x":1,"y":"p"},{"x":2,"y":"q"}]}`)
+	vrt.Assert("C14/j1-accepted", Unmarshal(j1, &v) == nil)
+	j2 := []byte(`{"as":[{"x":` + string(dc) + `},{"y":"r"}]}`)
+	var err2 error
+	if mode == 0 {
+		err2 = Unmarshal(j2, &v)
+	} else {
+		// only the option that tolerates arrays of any length is set (it must not change how
+		// present elements are stored)
+		j2 = []byte(`{"as":[{"x":` + string(dc) + `}]}`)
+		err2 = Unmarshal(j2, &v, jsonflags.UnmarshalArrayFromAnyLength|1)
+	}
+	vrt.Cover("second-unmarshal")
+	vrt.Assert("C14/j2-accepted", err2 == nil)
+	vrt.Assert("C14/array-element-overwritten-not-merged", v.AS[0] == zz14Inner{X: d})
+	if mode == 0 {
+		vrt.Assert("C14/array-second-element-overwritten", v.AS[1] == zz14Inner{Y: "r"})
+	} else {
+		vrt.Assert("C14/array-missing-element-zeroed", v.AS[1] == zz14Inner{})
+	}
 }
